@@ -204,7 +204,7 @@ def C01(run):
     for c in (['core3', 'uni3', 'kw4', 'soupfull2', 'souptiny3'] if quick else ['core4', 'uni4', 'kw5', 'multi5', 'soupfull3', 'soupcore4', 'souptiny5']):
         tlc_replay(run, 'total-' + c, 'MC_Lex.tla', 'MC_Lex_%s.cfg' % c, 'total', profiles=('debug', 'release'), timeout_ms=5000)
     # totality only: what the verdict is belongs to C02 / C13
-    parser_soup(run, ['full2', 'tiny3'] if quick else ['full3', 'core4', 'tiny5', 'stmt6'], profiles=('debug', 'release'), family='total')
+    parser_soup(run, ['full2', 'tiny3', 'lines3'] if quick else ['full3', 'core4', 'tiny5', 'stmt6', 'lines4'], profiles=('debug', 'release'), family='total')
     n = 300 if quick else 5000
     tlc_replay(run, 'total-sim', 'MC_Lex.tla', 'MC_Lex_sim.cfg', 'total', profiles=('debug', 'release'),
                simulate='num=%d' % n, workers=8, timeout_ms=5000)
@@ -363,8 +363,12 @@ def C02(run):
     run.assumptions += ['"every spelling" = the choice points of Grammar.tla (grown from the alias table and the parser\'s optional-token sites)']
     for fam in ('expr', 'stmt', 'block'):
         grammar(run, fam)
+    # the other direction: texts the grammar did not produce.  The recogniser model assigns each line-fragment soup text a tree or
+    # an error line; the real parser must assign the same (accepted texts: exactly the tree).
+    parser_soup(run, ['lines3'] if run.tier == 'quick' else ['lines4', 'core4'])
     if run.tier == 'thorough':
         grammar(run, 'e2e', family='e2e')
+        tlc_replay(run, 'parser-simlines', 'MC_Parser.tla', 'MC_Parser_simlines.cfg', 'verdict', simulate='num=4000', workers=8, xss='256m')
 
 
 def C11(run):
@@ -387,7 +391,7 @@ def C13(run):
     run.assumptions += ['the catalogue is hand-written (context-independent by construction); for soup texts "the line of the offending token" is the recogniser model\'s']
     grammar(run, 'fault', family='fault')
     # beyond the catalogue: every token-soup text; the recogniser model decides acceptance and the error line
-    parser_soup(run, ['full2', 'tiny3', 'core3'] if run.tier == 'quick' else ['full3', 'core4', 'tiny5', 'stmt6'], env={'VH_REJECT_ONLY': '1'})
+    parser_soup(run, ['full2', 'tiny3', 'core3', 'lines3'] if run.tier == 'quick' else ['full3', 'core4', 'tiny5', 'stmt6', 'lines4'], env={'VH_REJECT_ONLY': '1'})
 
 
 def C20(run):
